@@ -122,36 +122,69 @@ def npdu_decode(bs):
 
 
 def addr_tuple(a):
-    """neutral form of a bacpypes Address"""
+    """neutral form of a bacpypes Address; when the address carries a route (settings.route_aware) its link address is
+    appended as a last element ('via', mac)"""
     if a is None:
         return ('none',)
     t = a.addrType
-    if t == 0: return ('null',)
-    if t == 1: return ('lb',)
-    if t == 2: return ('ls', bytes(a.addrAddr))
-    if t == 3: return ('rb', a.addrNet)
-    if t == 4: return ('rs', a.addrNet, bytes(a.addrAddr))
-    if t == 5: return ('gb',)
-    return ('other', t)
+    if t == 0: out = ('null',)
+    elif t == 1: out = ('lb',)
+    elif t == 2: out = ('ls', bytes(a.addrAddr))
+    elif t == 3: out = ('rb', a.addrNet)
+    elif t == 4: out = ('rs', a.addrNet, bytes(a.addrAddr))
+    elif t == 5: out = ('gb',)
+    else: out = ('other', t)
+    r = getattr(a, 'addrRoute', None)
+    if r is not None:
+        out = out + (('via', bytes(r.addrAddr)),)
+    return out
+
+
+def strip_route(t):
+    return tuple(x for x in t if not (isinstance(x, tuple) and x and x[0] == 'via'))
+
+
+def route_of(t):
+    for x in t:
+        if isinstance(x, tuple) and x and x[0] == 'via':
+            return x[1]
+    return None
 
 
 def mk_addr(t):
     from bacpypes.pdu import LocalStation, LocalBroadcast, RemoteStation, RemoteBroadcast, GlobalBroadcast
+    via = route_of(t)
+    route = LocalStation(bytes(via)) if via is not None else None
+    t = strip_route(t)
     k = t[0]
-    if k == 'ls': return LocalStation(bytes(t[1]))
-    if k == 'lb': return LocalBroadcast()
-    if k == 'rs': return RemoteStation(t[1], bytes(t[2]))
-    if k == 'rb': return RemoteBroadcast(t[1])
-    if k == 'gb': return GlobalBroadcast()
+    if k == 'ls': return LocalStation(bytes(t[1]), route=route) if route is not None else LocalStation(bytes(t[1]))
+    if k == 'lb': return LocalBroadcast(route=route) if route is not None else LocalBroadcast()
+    if k == 'rs': return RemoteStation(t[1], bytes(t[2]), route=route)
+    if k == 'rb': return RemoteBroadcast(t[1], route=route)
+    if k == 'gb': return GlobalBroadcast(route=route)
     raise ValueError(t)
+
+
+class RouteAware:
+    """context manager: settings.route_aware switched on, always restored"""
+    def __init__(self, on=True):
+        self.on = on
+
+    def __enter__(self):
+        from bacpypes.settings import settings
+        self.old = settings.route_aware
+        settings.route_aware = self.on
+        return self
+
+    def __exit__(self, *a):
+        from bacpypes.settings import settings
+        settings.route_aware = self.old
 
 
 # ---------------------------------------------------------------- nodes
 def _classes():
     from bacpypes.comm import Client, Server, bind
     from bacpypes.netservice import NetworkServiceAccessPoint, NetworkServiceElement
-    from bacpypes.settings import settings
-    assert not settings.route_aware
 
     class NSE(NetworkServiceElement):
         _startup_disabled = True
